@@ -34,6 +34,19 @@ ASSUMPTIONS = [
 ]
 
 
+class OsStub:
+    """Abstract `os`: the primitives a scenario scripts are overridden, everything else (constants, PathLike, fspath, ...) is the
+    real module's - so that code which starts using another harmless attribute of `os` does not fall over the stub."""
+
+    def __init__(self, **overrides):
+        self.__dict__.update(overrides)
+
+    def __getattr__(self, name):
+        import os as real_os
+
+        return getattr(real_os, name)
+
+
 class UserError(RuntimeError):
     pass
 
@@ -60,8 +73,8 @@ class Process:
 class Comm:
     """Abstract communicator: read() returns the next scripted request (or None), write() may need a retry."""
 
-    def __init__(self, log, script, write_retry):
-        self.log, self.script, self.retry = log, list(script), write_retry
+    def __init__(self, log, script, write_retry, fail_write_at=None):
+        self.log, self.script, self.retry, self.fail_write_at, self.writes = log, list(script), write_retry, fail_write_at, 0
 
     def __enter__(self):
         return self
@@ -76,13 +89,18 @@ class Comm:
         if self.retry > 0:
             self.retry -= 1
             return False
+        if self.fail_write_at is not None and self.writes == self.fail_write_at:
+            # the message cannot be sent (e.g. something in it is not serialisable): library contract of json.dumps / os.write
+            self.writes += 1
+            raise TypeError("Object of type PosixPath is not JSON serializable")
+        self.writes += 1
         self.log.append(("write", data))
         return True
 
 
 def cases_start(tier):
     for n_eval in (0, 1, 2) + ((3, 4) if tier == "thorough" else ()):
-        for fault in ("none", "evaluator-raises", "driver-aborts", "child-reports-error", "child-reports-empty-error"):
+        for fault in ("none", "evaluator-raises", "driver-aborts", "child-reports-error", "child-reports-empty-error", "sending-fails"):
             if fault in ("evaluator-raises", "driver-aborts") and n_eval == 0:
                 continue
             yield "evaluations=%d/%s" % (n_eval, fault), {"n_eval": n_eval, "fault": fault}
@@ -104,7 +122,7 @@ def scn_start(T, case):
     retry = T.choose(2)
     raise_at = T.choose(n_eval) if fault in ("evaluator-raises", "driver-aborts") else None
     proc = Process(log, alive, status)
-    comm = Comm(log, script, retry)
+    comm = Comm(log, script, retry, fail_write_at=T.choose(len(script)) if fault == "sending-fails" else None)
     calls = []
 
     def callback(variables, *, return_functions, return_gradients):
@@ -126,7 +144,7 @@ def scn_start(T, case):
         def __exit__(self, *a):
             log.append(("tmpdir-removed",))
 
-    os_stub = types.SimpleNamespace(kill=lambda pid, sig: log.append(("kill", pid, sig)), getpid=lambda: 1)
+    os_stub = OsStub(kill=lambda pid, sig: log.append(("kill", pid, sig)), getpid=lambda: 1)
     stubs = {
         (MX, "subprocess"): types.SimpleNamespace(Popen=lambda args: (log.append(("spawn", list(args))), proc)[1], TimeoutExpired=subprocess.TimeoutExpired),
         (MX, "_JSONPipeCommunicator"): lambda a, b: comm,
@@ -162,6 +180,8 @@ def scn_start(T, case):
             outcome = "returned"
         except _Aborted:
             outcome = "aborted"
+        except TypeError:
+            outcome = "type-error"
         except UserError:
             outcome = "user-error"
         except RuntimeError as exc:
@@ -176,6 +196,9 @@ def scn_start(T, case):
         # every other exit path (checked below)
         T.prove("C20.start.an_abort_of_the_driver_is_passed_on_to_the_caller", outcome == "aborted")
     child_error_seen = errmsg is not None and {"error": errmsg} not in comm.script and len(comm.script) == 0
+    if fault == "sending-fails" and comm.writes > (comm.fail_write_at or 0):
+        # a message that cannot be sent ends the run with that error - and the child is stopped like on every other exit path
+        T.prove("C20.start.a_failure_to_send_is_raised_not_swallowed", outcome in ("type-error",) or outcome.startswith("runtime-error"))
     # ---- death is never success
     if outcome == "returned":
         T.prove("C20.start.normal_return_implies_child_exited_with_status_zero", status == 0)
@@ -267,7 +290,7 @@ def scn_child(T, case):
         def read(self):
             return self.pending.pop(0) if self.pending else None
 
-    stubs = {(MX, "os"): types.SimpleNamespace(kill=lambda pid, sig: log.append(("probe-parent", pid, sig)))}
+    stubs = {(MX, "os"): OsStub(kill=lambda pid, sig: log.append(("probe-parent", pid, sig)))}
     if T.symbolic:
         sh = T.shadow([MX], stubs)
         cls = T.under_contract(sh, MX, "_PluginOptimizer")
@@ -439,7 +462,7 @@ def scn_comm(T, case):
             closed.append("dup")
 
     sel = Selector()
-    fake_os = types.SimpleNamespace(
+    fake_os = OsStub(
         O_RDONLY=real_os.O_RDONLY, O_WRONLY=real_os.O_WRONLY, O_NONBLOCK=real_os.O_NONBLOCK,
         open=os_open, close=lambda fd: closed.append(fd), mkfifo=lambda p, *a: log.append(("mkfifo", p.name)),
         write=lambda fd, data: log.append(("write", fd, data)) or len(data), dup=lambda fd: ("dup", fd),
@@ -462,14 +485,18 @@ def scn_comm(T, case):
         timeout = 0.25
         comm = cls(Path_("to-parent"), Path_("to-child"), timeout)
         T.prove("C20.comm.missing_fifos_are_created", sorted(e[1] for e in log if e[0] == "mkfifo") == ([] if case["exists"] else ["to-child", "to-parent"]))
-        msg = {"evaluation": {"variables": [0.5, 1.5], "return_functions": True}}
+        import pathlib
+
+        # what a dumped configuration may contain besides plain JSON types: arrays, NumPy scalars, paths
+        msg_sent = {"evaluation": {"variables": np.array([0.5, 1.5]), "return_functions": True}, "output_dir": pathlib.Path("/some/dir"), "count": np.int64(3), "tol": np.float64(0.5)}
+        msg = {"evaluation": {"variables": [0.5, 1.5], "return_functions": True}, "output_dir": "/some/dir", "count": 3, "tol": 0.5}
         with comm:
             for step in script:
                 n_sel, n_wr = sum(1 for e in log if e[0] == "select"), sum(1 for e in log if e[0] == "write")
                 if step.startswith("write"):
                     wfd = next((fd for fd, name, fl in opened if name == "to-child"), state["next_fd"])
                     state["ready"] = (wfd, real_selectors.EVENT_WRITE) if step == "write-ready" else None
-                    ok = comm.write(msg)
+                    ok = comm.write(msg_sent)
                     writes = [e for e in log if e[0] == "write"][n_wr:]
                     if step == "write-ready":
                         T.prove("C20.comm.write_sends_the_whole_message_once_when_the_pipe_is_writable", ok is True and len(writes) == 1
@@ -546,7 +573,7 @@ def scn_child_run(T, case):
             return types.SimpleNamespace(create=lambda config, callback: Wrapped(config, callback))
 
     validated = types.SimpleNamespace(optimizer=types.SimpleNamespace(method="external/scipy/slsqp"), variables=types.SimpleNamespace(initial_values=np.zeros(3)))
-    stubs = {(MX, "_JSONPipeCommunicator"): Comm, (MX, "PluginManager"): PM, (MX, "os"): types.SimpleNamespace(kill=lambda pid, sig: None),
+    stubs = {(MX, "_JSONPipeCommunicator"): Comm, (MX, "PluginManager"): PM, (MX, "os"): OsStub(kill=lambda pid, sig: None),
              (MX, "EnOptConfig"): types.SimpleNamespace(model_validate=lambda d: log.append(("validate", d)) or validated)}
     restore = None
     if T.symbolic:
@@ -598,6 +625,66 @@ def scn_threshold(T, case):
     C18.scn_validators(Renamed(T, "C18.", "C20.config."), case)
 
 
+# ------------------------------------------------------------------------------------ child side: the entry point of the process
+def cases_entry(tier):
+    for rc in (0, 1):
+        yield "optimizer-run-returns-%d" % rc, {"rc": rc}
+
+
+def scn_entry(T, case):
+    """'Process death is never success' rests on the exit status the parent inspects: the child's entry point runs the optimizer on
+    the two pipes it was given, returns ITS status, and leaves the disposition of the termination signals alone - a process that
+    turns SIGTERM into a clean exit(0) makes a kill look like a normal completion."""
+    import signal as real_signal
+
+    log = []
+
+    class FakeOptimizer:
+        def __init__(self, parent_pid):
+            log.append(("create", parent_pid))
+
+        def run(self, fifo1, fifo2):
+            log.append(("run", str(fifo1), str(fifo2)))
+            return case["rc"]
+
+    class FakePath:
+        def __init__(self, p):
+            self.p = p
+
+        def exists(self):
+            return True
+
+        def __str__(self):
+            return self.p
+
+    handlers = []
+    sig_stub = types.SimpleNamespace(signal=lambda num, handler: handlers.append((num, handler)), SIGTERM=real_signal.SIGTERM, SIGINT=real_signal.SIGINT,
+                                     SIGKILL=real_signal.SIGKILL, SIG_DFL=real_signal.SIG_DFL, SIG_IGN=real_signal.SIG_IGN)
+    sys_stub = types.SimpleNamespace(argv=["ropt_plugin_optimizer", "/tmp/fifo-a", "/tmp/fifo-b", "4711"], exit=lambda code=0: log.append(("sys.exit", code)))
+    stubs = {(MX, "_PluginOptimizer"): FakeOptimizer, (MX, "Path"): FakePath, (MX, "signal"): sig_stub, (MX, "sys"): sys_stub,
+             (MX, "atexit"): types.SimpleNamespace(register=lambda f: log.append(("atexit", f)))}
+    restore = None
+    if T.symbolic:
+        sh = T.shadow([MX], stubs)
+        entry = T.under_contract(sh, MX, "ropt_plugin_optimizer", stubs)
+    else:
+        import ropt.plugins.optimizer.external as real
+
+        restore = (real, {k[1]: getattr(real, k[1]) for k in stubs})
+        for k, v in stubs.items():
+            setattr(real, k[1], v)
+        entry = real.ropt_plugin_optimizer
+    try:
+        rc = entry()
+    finally:
+        if restore:
+            for k, v in restore[1].items():
+                setattr(restore[0], k, v)
+    T.prove("C20.entry.runs_the_optimizer_for_the_given_parent_on_the_given_pipes", [e for e in log if e[0] in ("create", "run")] == [("create", 4711), ("run", "/tmp/fifo-a", "/tmp/fifo-b")])
+    T.prove("C20.entry.exit_status_is_the_status_of_the_optimizer_run", rc == case["rc"] and not any(e[0] == "sys.exit" for e in log))
+    T.prove("C20.entry.termination_signals_keep_their_default_disposition", handlers == [], repr([(int(n), getattr(h, "__name__", h)) for n, h in handlers]))
+
+
 SCENARIOS = [
     Scenario("start_request_loop", scn_start, cases_start, {"quick": 30, "thorough": 200}),
     Scenario("child_side_forwarding", scn_child, cases_child, {"quick": 2, "thorough": 10}),
@@ -606,6 +693,7 @@ SCENARIOS = [
     Scenario("pipe_communicator_against_abstract_os", scn_comm, cases_comm, {"quick": 1, "thorough": 1}),
     Scenario("child_side_run", scn_child_run, cases_child_run, {"quick": 1, "thorough": 1}),
     Scenario("validated_success_threshold", scn_threshold, cases_threshold, {"quick": 2, "thorough": 10}),
+    Scenario("child_process_entry_point", scn_entry, cases_entry, {"quick": 1, "thorough": 1}),
 ]
 
 MANIFEST = {
